@@ -133,7 +133,7 @@ impl DynTrig
     }
 }
 
-const MAX_TRIGS: usize = 8;
+const MAX_TRIGS: usize = 16;
 
 #[derive(Copy, Clone)]
 struct DynBundle { n: usize, t: [DynTrig; MAX_TRIGS] }
